@@ -80,6 +80,12 @@ def decode(n, P, Q, mode):
 
     def S(track, k):
         return [100 * k + j for j in range(n[k])]
+    # a fixed state space is usually written as one list returned for every epoch: the states are then the same objects
+    # at every epoch (P and Q still depend on the epoch)
+    fixed = (not reuse) and len(set(n)) == 1 and _CALLS[0] % 3 == 0
+    if fixed:
+        space = list(range(n[0]))
+        S = lambda track, k: space
     if reuse:
         tr.tid = "m%d" % _CALLS[0]
         _REG.clear()
@@ -112,7 +118,7 @@ def decode(n, P, Q, mode):
             hmm.estimate(tr, "obs", verbose=e["verbose"])
             inf = [tr["hmm_inference", k] for k in range(T)]
             last = tr["hmm_cost", T - 1]
-        e["inf"] = [[int(v) // 100, int(v) % 100] for v in inf]
+        e["inf"] = [[k, int(v)] for k, v in enumerate(inf)] if fixed else [[int(v) // 100, int(v) % 100] for v in inf]
         a = abstract_cost(last)
         if a is None:
             e["lat"] = False
